@@ -253,8 +253,14 @@ func checkC11(c C11Case) Verdict {
 		// the source rendering of this group (fallback)
 		gp := &ref.Program{Globals: gen.MsgGlobals, Files: []ref.File{{Name: "g.soy", Namespace: "g", Templates: []ref.Template{{Name: "t", Body: g}}}}}
 		gsrc := ref.Render(gp, "g.t", nil, nil, false).Out
+		if len(msg.Body) == 0 {
+			// an empty message has nothing to translate: no entry is expected for it (the empty msgid
+			// is the header of a PO file) and it renders as it stands
+			expected.WriteString(gsrc + " / ")
+			continue
+		}
 		var e entry
-		if msg.Body[0].K == "plural" {
+		if len(msg.Body) > 0 && msg.Body[0].K == "plural" {
 			pl := msg.Body[0]
 			if len(pl.Branches) != 1 || pl.Branches[0].Int != 1 {
 				representable = false
@@ -266,7 +272,7 @@ func checkC11(c C11Case) Verdict {
 				return excluded("harness: plural body outside the model")
 			}
 			e.msgid, e.plural = msgidOf(one), msgidOf(other)
-			nv, st, _ := ref.EvalExpr(pl.Expr, ref.NewEnv(letEnv(lets), nil, false, nil))
+			nv, st, _ := ref.EvalExpr(pl.Expr, ref.NewEnv(letEnv(lets), nil, false, gen.MsgGlobals))
 			if st != ref.OK || nv.K != ref.Int {
 				return excluded("harness: plural value")
 			}
@@ -398,7 +404,17 @@ func checkC11(c C11Case) Verdict {
 	if p := catch(func() {
 		// (the setters of a Renderer may be called in any order)
 		ij := toDataMap(map[string]ref.Value{"zz": ref.S("ij")})
-		switch strHash(src) % 3 {
+		switch strHash(src) % 5 {
+		case 3, 4:
+			// a Renderer that the application keeps: it has rendered with another catalogue (marked
+			// identity translations) or with none before it is given this one
+			rd := cb.tofu.NewRenderer("m.t")
+			var discard bytes.Buffer
+			if strHash(src)%5 == 3 {
+				rd.WithMessages(identityBundle(cb))
+			}
+			rd.Execute(&discard, nil)
+			rerr = rd.WithMessages(bundle).Execute(&buf, nil)
 		case 0:
 			rerr = cb.tofu.NewRenderer("m.t").WithMessages(bundle).Execute(&buf, nil)
 		case 1:
@@ -461,7 +477,7 @@ func genC11(t *rapid.T) C11Case {
 	for i, n := 0, rapid.IntRange(1, 3).Draw(t, "ngroups"); i < n; i++ {
 		grp := g.MsgStress(true)
 		msg := &grp[len(grp)-1]
-		if msg.Body[0].K == "plural" && rapid.IntRange(0, 9).Draw(t, "poPlural") < 8 {
+		if len(msg.Body) > 0 && msg.Body[0].K == "plural" && rapid.IntRange(0, 9).Draw(t, "poPlural") < 8 {
 			pl := &msg.Body[0]
 			if len(pl.Branches) == 0 {
 				pl.Branches = []ref.Branch{{Int: 1, Body: []ref.Cmd{txt("one item")}}}
